@@ -14,6 +14,31 @@ SITE_FUNCS = ('find_first_cleave_or_stop_site', 'find_first_cleave_or_stop_site_
               'find_first_enzymatic_cleave_site', 'iter_enzymatic_cleave_sites', 'iter_enzymatic_cleave_sites_with_range')
 
 
+def split_node_flags(chk, repo, rid):
+    """shared (C01.f, C02.i)"""
+    chk.rule(rid, 'split_node: end-of-node flags move to the right half (transferred and cleared on the left)', 2)
+    sn = repo.func('svgraph.PVGNode:PVGNode.split_node')
+    chk.uses(sn)
+    ctor = [c for c in G.find_calls(sn.node, 'PVGNode')]
+    for flag in ('truncated', 'cpop_collapsed'):
+        passed = bool(ctor) and kwarg(ctor[0], flag) is not None and unparse(kwarg(ctor[0], flag)) == f"self.{flag}"
+        from sa.cfg import CFG as _CFG
+        scfg = _CFG(sn.node)
+        # on every path to the return, self.<flag> is assigned after the constructor (cleared, or set by the pop-collapse branch)
+        bad = None
+        for pth in scfg.paths(scfg.entry, max_paths=20000):
+            if pth.end_kind() != 'return':
+                continue
+            ids = [i for i, n_ in enumerate(pth.nodes()) if n_.kind == 'stmt' and any(x is ctor[0] for x in ast.walk(n_.ast))]
+            assigns = [i for i, n_ in enumerate(pth.nodes()) if n_.kind == 'stmt' and isinstance(n_.ast, ast.Assign) and unparse(n_.ast.targets[0]) == f"self.{flag}"]
+            if not ids or not any(a > ids[0] for a in assigns):
+                bad = bad or pth
+        chk.ob(rid, f"split_node: right half inherits {flag}; left half's {flag} is re-assigned on every path", sn.where, passed and bad is None,
+               f"after split_node the left half keeps {flag} of the unsplit node: the flag describes the END of the node "
+               "(e.g. a truncated 3' end), so every upstream piece would wrongly carry it and its peptides are never called", key=sn.qual + f'::{flag}', fn=sn.qual)
+
+
+
 def run(chk, repo):
     chk.clauses = [
         'C01.a every cleavage-site computation in the peptide graph uses rule and exception of the same cleavage parameters',
@@ -138,26 +163,7 @@ def run(chk, repo):
     # ------------------------------------------------------------------ e, f
     from rules.C03 import sec_variant_filter
     sec_variant_filter(chk, repo, 'C01.e')
-    chk.rule('C01.f', 'split_node: end-of-node flags move to the right half (transferred and cleared on the left)', 2)
-    sn = repo.func('svgraph.PVGNode:PVGNode.split_node')
-    chk.uses(sn)
-    ctor = [c for c in G.find_calls(sn.node, 'PVGNode')]
-    for flag in ('truncated', 'cpop_collapsed'):
-        passed = bool(ctor) and kwarg(ctor[0], flag) is not None and unparse(kwarg(ctor[0], flag)) == f"self.{flag}"
-        from sa.cfg import CFG as _CFG
-        scfg = _CFG(sn.node)
-        # on every path to the return, self.<flag> is assigned after the constructor (cleared, or set by the pop-collapse branch)
-        bad = None
-        for pth in scfg.paths(scfg.entry, max_paths=20000):
-            if pth.end_kind() != 'return':
-                continue
-            ids = [i for i, n_ in enumerate(pth.nodes()) if n_.kind == 'stmt' and any(x is ctor[0] for x in ast.walk(n_.ast))]
-            assigns = [i for i, n_ in enumerate(pth.nodes()) if n_.kind == 'stmt' and isinstance(n_.ast, ast.Assign) and unparse(n_.ast.targets[0]) == f"self.{flag}"]
-            if not ids or not any(a > ids[0] for a in assigns):
-                bad = bad or pth
-        chk.ob('C01.f', f"split_node: right half inherits {flag}; left half's {flag} is re-assigned on every path", sn.where, passed and bad is None,
-               f"after split_node the left half keeps {flag} of the unsplit node: the flag describes the END of the node "
-               "(e.g. a truncated 3' end), so every upstream piece would wrongly carry it and its peptides are never called", key=sn.qual + f'::{flag}', fn=sn.qual)
+    split_node_flags(chk, repo, 'C01.f')
 
     # ------------------------------------------------------------------ g
     from sa.cfg import CFG as _CFG2
@@ -193,3 +199,7 @@ def run(chk, repo):
     from rules.shared import pointers_append_only
     chk.clauses.append('C01.i (shared) records of a transcript are gathered from EVERY GVF file: the pointer table only grows')
     pointers_append_only(chk, repo, 'C01.i')
+    from rules.C07 import pool_copy_before_write
+    chk.rule('C01.j', '(shared with C07.c) the donor series of a fusion is copied before it is truncated: later units still see every variant', 2)
+    chk.clauses.append('C01.j the wrapper truncates the donor variant series for one fusion on a COPY: circRNAs and later fusions of the transcript keep the downstream variants')
+    pool_copy_before_write(chk, repo, 'C01.j')
